@@ -478,7 +478,11 @@ def setup(repo: str) -> tuple[Program, list[str]]:
     p = build(repo)
     add_macros(p)
     c15.contracts(p)
-    return p, contracts(p)
+    targets = contracts(p)
+    from contracts.dispatch import add_dispatch
+    targets += [t for t in add_dispatch(p)
+                if t.endswith(('BELOW.ERROR', 'BELOW.LOG'))]
+    return p, targets
 
 
 def bounded(tier: str) -> dict:
@@ -516,4 +520,8 @@ def bounded(tier: str) -> dict:
                 }
                 yield sc
         out['DetachedServer.handle_message#CLIENT.' + m] = gen
+    from contracts.dispatch import bounded_dispatch
+    for k, g in bounded_dispatch(tier).items():
+        if k.endswith(('BELOW.ERROR', 'BELOW.LOG')):
+            out[k] = g
     return out
